@@ -345,6 +345,18 @@ func (pr *propResult) finish(eng *Engine, cfg *PropConfig, tier string, seed int
 		degraded = append(degraded, fmt.Sprintf("%s: %s", run.key, run.aborted))
 		fmt.Printf("DEGRADED obligation-generation function=%s reason=%s\n", run.key, run.aborted)
 	}
+	// check clauses that could not be evaluated on any return path (a local they mention is gone)
+	for _, run := range pr.runs {
+		if run.aborted != "" {
+			continue
+		}
+		for lab, n := range run.checkSkip {
+			if run.checkSeen[lab] == 0 && n > 0 {
+				degraded = append(degraded, fmt.Sprintf("%s: check clause [%s] mentions a local variable that no longer exists on any return path", run.key, lab))
+				fmt.Printf("DEGRADED obligation-generation function=%s reason=check clause [%s] not evaluable (local variable missing)\n", run.key, lab)
+			}
+		}
+	}
 	for _, m := range pr.missing {
 		degraded = append(degraded, fmt.Sprintf("%s: function not found in the current tree", m))
 		fmt.Printf("DEGRADED function=%s reason=not-found\n", m)
